@@ -21,7 +21,7 @@ from vgi_rpc.rpc._common import _EMPTY_SCHEMA, MethodType, RpcError
 from vgi_rpc.rpc._debug import fmt_batch, wire_request_logger, wire_stream_logger, wire_transport_logger
 from vgi_rpc.rpc._transport import RpcTransport
 from vgi_rpc.rpc._types import _TICK_BATCH, AnnotatedBatch, RpcMethodInfo, rpc_methods
-from vgi_rpc.rpc._wire import _read_batch_with_log_check, _read_stream_header, _read_unary_response, _send_request
+from vgi_rpc.rpc._wire import _read_batch_with_log_check, _read_header_batch, _read_unary_response, _send_request
 from vgi_rpc.shm import ShmSegment, maybe_write_to_shm
 from vgi_rpc.utils import ArrowSerializableDataclass, IpcValidation, ValidatedReader, empty_batch, new_ipc_stream
 
@@ -427,18 +427,12 @@ class _RpcProxy:
                     object.__setattr__(transport, "_stream_opened", True)
                 header = None
                 if info.header_type is not None:
-                    try:
-                        header = _read_stream_header(
-                            transport.reader, info.header_type, ipc_validation, on_log, ext_cfg
-                        )
-                    except (RpcError, *_TRANSPORT_ERRORS):
-                        raise
-                    except Exception:
-                        # The caller's on_log callback raised while the header
-                        # was read.  The server has accepted the stream and now
-                        # waits for its input, and no session will be returned
-                        # to close it: end the stream here, or the next request
-                        # would be consumed as this stream's input.
+
+                    def end_accepted_stream() -> None:
+                        # The server has accepted the stream and now waits for
+                        # its input, and no session will be returned to close
+                        # it: end the stream here, or the next request would be
+                        # consumed as this stream's input.
                         StreamSession(
                             transport.writer,
                             transport.reader,
@@ -447,6 +441,30 @@ class _RpcProxy:
                             ipc_validation=ipc_validation,
                             shm=shm,
                         ).close()
+
+                    # Two steps, because they fail differently.  While the
+                    # header *stream* is read, an RpcError is the server's
+                    # answer in place of a header (no stream was opened) and a
+                    # transport error means the connection is gone.
+                    try:
+                        header_batch, header_cm = _read_header_batch(transport.reader, ipc_validation, on_log, ext_cfg)
+                    except (RpcError, *_TRANSPORT_ERRORS):
+                        raise
+                    except Exception:
+                        # The caller's on_log callback raised while the header
+                        # was read.
+                        end_accepted_stream()
+                        raise
+                    # The header has arrived intact.  Whatever keeps this side
+                    # from turning it into ``header_type`` (a field missing, an
+                    # unknown Enum member, pa.ArrowInvalid from a nested IPC
+                    # field, ...) is a local failure of a stream that is open.
+                    try:
+                        header = info.header_type.deserialize_from_batch(
+                            header_batch, header_cm, ipc_validation=ipc_validation
+                        )
+                    except Exception:
+                        end_accepted_stream()
                         raise
                 session = StreamSession(
                     transport.writer,
